@@ -868,6 +868,12 @@ orc_parse_handle_opcode (OrcParser *parser, const OrcLine *line)
       snprintf (varname, sizeof (varname), "_%d.%s", opcode_arg_size(o, j), line->tokens[i]);
       id = orc_program_add_constant_str (parser->program, opcode_arg_size(o, j),
           line->tokens[i], varname);
+      if (id <= 0) {
+        /* not a number after all (e.g. "1/"), or no constant slot left */
+        orc_parse_add_error (parser, "bad constant operand \"%s\"",
+            line->tokens[i]);
+        return 0;
+      }
       /* it's possible we reused an existing variable, get its name so
        * that we can refer to it in the opcode */
       args[j] = parser->program->vars[id].name;
